@@ -308,59 +308,71 @@ def parse_model(line):
 
 
 # ------------------------------------------------------------------ one batch = one script = one process
+PRELUDE = ['env PNETCDF_SAFE_MODE=0',
+           '* create 1 1 1', '* def_dim 1 %s 2' % hx('x'), '* def_var 1 %s 4 1 0' % hx('v'), '* close 1',
+           '* create 2 1 1', '* def_dim 2 %s -1' % hx('t'), '* def_var 2 %s 4 1 0' % hx('r'), '* close 2']
+LEGAL_MODE_SIGS = (['-39'] * 4,                       # define mode: both layers say NC_EINDEFINE
+                   ['-49', '-202', '0', '-202'],       # collective data mode
+                   ['-203', '-49', '-203', '0'],       # independent data mode
+                   ['-33'] * 4)                        # closed
+
+
+def render_hist(h, pred, L, where, extra, hi, want_snap=True, upto=None):
+    r = Render()
+    for ci, code in enumerate(h.codes):
+        if upto is not None and ci > upto and h.kinds[ci] != 'obs':
+            break
+        p = pred[ci]
+        ls, k = r.lines(code, p[0] if p else -1)
+        for j, l in enumerate(ls):
+            L.append(l)
+            if j == k:
+                where[len(L)] = (hi, ci)
+        if h.kinds[ci] == 'obs' and (ci + 1 == len(h.codes) or h.kinds[ci + 1] != 'obs'):
+            L.append('* inq_nreqs 0'); a = len(L)
+            b = 0
+            if want_snap:
+                L.append('* snapshot 0'); b = len(L)
+            extra[(hi, ci)] = (a, b)
+
+
+def model_predict(model, hists):
+    rc, mout = C.sh([model], inp=('\n'.join(' '.join(map(str, h.codes)) for h in hists) + '\n').encode(), timeout=900)
+    mlines = mout.strip('\n').split('\n')
+    if rc != 0 or len(mlines) != len(hists):
+        return None, mout[-500:]
+    return [parse_model(l) for l in mlines], ''
+
+
 def run_batch(args):
-    """worker: (batch index, list of (tag, fam, np, codes, kinds), impl exe, model exe, workdir) -> summary dict"""
-    bi, hists, impl, model, wd, want_snap = args
+    """worker: (batch index, descriptors, impl exe, model exe, workdir) -> summary dict"""
+    bi, descs, impl, model, wd = args
     d = os.path.join(wd, 'b%d' % bi)
     os.makedirs(d, exist_ok=True)
-    np_ = hists[0][2]
-    # ---- model
-    rc, mout = C.sh([model], inp=('\n'.join(' '.join(map(str, h[3])) for h in hists) + '\n').encode(), timeout=600)
-    mlines = mout.strip('\n').split('\n')
+    hists = [build(x) for x in descs]
+    np_ = hists[0].np
     res = dict(batch=bi, nh=len(hists), ncalls=0, nrej=0, nacc=0, mism=[], spec=[], effect=[], modefail=[], crash=None,
-               cover=set(), aux_mism=[], by_kind={}, by_rc={}, script_lines=0)
-    if rc != 0 or len(mlines) != len(hists):
-        res['crash'] = dict(what='model driver failed', detail=mout[-500:])
+               cover=set(), aux_mism=[], by_kind={}, by_rc={}, script_lines=0, nobs=0)
+    preds, err = model_predict(model, hists)
+    if preds is None:
+        res['crash'] = dict(what='model driver failed', detail=err, desc=descs[0])
         return res
-    preds = [parse_model(l) for l in mlines]
-    # ---- render
-    L = ['nprocs %d' % np_, 'env PNETCDF_SAFE_MODE=0',
-         '* create 1 1 1', '* def_dim 1 %s 2' % hx('x'), '* def_var 1 %s 4 1 0' % hx('v'), '* close 1',
-         '* create 2 1 1', '* def_dim 2 %s -1' % hx('t'), '* def_var 2 %s 4 1 0' % hx('r'), '* close 2']
+    L = ['nprocs %d' % np_] + PRELUDE
     prelude = len(L)
     where = {}           # lineno -> (hist index, call index)
-    extra = {}           # (hi, ci) -> (nreqs lineno, snapshot lineno) following that call's obs group
-    for hi, (tag, fam, _np, codes, kinds) in enumerate(hists):
-        r = Render()
-        pred = preds[hi]
-        L.append('# ' + tag)
-        ci = 0
-        while ci < len(codes):
-            p = pred[ci]
-            ls, k = r.lines(codes[ci], p[0] if p else -1)
-            for j, l in enumerate(ls):
-                L.append(l)
-                if j == k:
-                    where[len(L)] = (hi, ci)
-            # after the last obs call of a group: request count and file bytes
-            if kinds[ci] == 'obs' and (ci + 1 == len(codes) or kinds[ci + 1] != 'obs'):
-                L.append('* inq_nreqs 0'); a = len(L)
-                b = 0
-                if want_snap:
-                    L.append('* snapshot 0'); b = len(L)
-                extra[(hi, ci)] = (a, b)
-            ci += 1
-        # leave nothing open, whatever happened
-    script = '\n'.join(L) + '\n'
+    extra = {}           # (hi, ci of the last obs call of a group) -> (inq_nreqs lineno, snapshot lineno)
+    for hi, h in enumerate(hists):
+        L.append('# ' + h.tag)
+        render_hist(h, preds[hi], L, where, extra, hi)
     res['script_lines'] = len(L)
     sp = os.path.join(d, 'script.txt')
-    open(sp, 'w').write(script)
-    env = dict(os.environ); env.update(PNC_DIR=d, PNC_OUT=os.path.join(d, 'out'))
+    open(sp, 'w').write('\n'.join(L) + '\n')
     t0 = time.time()
     if np_ == 1:
-        rc, out = C.sh([impl, sp], timeout=900, env=env, cwd=d)
+        env = dict(os.environ); env.update(PNC_DIR=d, PNC_OUT=os.path.join(d, 'out'))
+        rc, out = C.sh([impl, sp], timeout=1200, env=env, cwd=d)
     else:
-        rc, out = C.mpirun(np_, impl, [sp], env=dict(PNC_DIR=d, PNC_OUT=os.path.join(d, 'out')), timeout=900, cwd=d)
+        rc, out = C.mpirun(np_, impl, [sp], env=dict(PNC_DIR=d, PNC_OUT=os.path.join(d, 'out')), timeout=1200, cwd=d)
     res['impl_s'] = time.time() - t0
     logs = []
     for rk in range(np_):
@@ -378,29 +390,25 @@ def run_batch(args):
             pass
         logs.append(lg)
     if rc != 0:
-        # the last line that was started identifies the culprit
-        last = max((max(lg) if lg else 0) for lg in logs)
-        # find the history containing line `last`+1 (the line being executed has no rc and is not in lg)
-        cand = [ln for ln in where if ln >= last]
+        last = max((max(lg) if lg else 0) for lg in logs)      # last completed line; the culprit is the next executed one
+        cand = [ln for ln in where if ln > last]
         ln = min(cand) if cand else last
         hi, ci = where.get(ln, (None, None))
         res['crash'] = dict(what='hang' if rc == -9 else 'crash', rc=rc, line=ln, script_line=L[ln - 1] if 0 < ln <= len(L) else '',
-                            hist=hists[hi][0] if hi is not None else None, code=hists[hi][3][ci] if hi is not None else None,
-                            detail=out[-600:], script=first_lines_for(L, prelude, ln))
-    # ---- compare
+                            desc=descs[hi] if hi is not None else None, call=ci,
+                            code=hists[hi].codes[ci] if hi is not None else None, detail=out[-600:])
+    per = {}
+    for ln, (hi, ci) in where.items():
+        per.setdefault(hi, []).append((ci, ln))
+    for hi in per:
+        per[hi].sort()
     for rk in range(np_):
         lg = logs[rk]
-        # group the compared lines per history in call order
-        per = {}
-        for ln, (hi, ci) in where.items():
-            per.setdefault(hi, []).append((ci, ln))
         for hi, lst in per.items():
-            lst.sort()
-            tag, fam, _np, codes, kinds = hists[hi]
-            pred = preds[hi]
-            prev_obs = None      # (signature string, call index it follows)
-            cur_obs = []
-            pending = None       # (ci, code, impl rc, sig before) waiting for the obs group after it
+            h = hists[hi]; pred = preds[hi]; kinds = h.kinds; codes = h.codes; desc = descs[hi]
+            last_group = None    # observation signature of the latest group, None when a call without group came after it
+            cand = None          # (ci, code, impl rc, core before, reference group) : call waiting for the group after it
+            cur = []
             sig_before = '-1:-1:-1'
             for ci, ln in lst:
                 e = lg.get(ln)
@@ -413,83 +421,72 @@ def run_batch(args):
                     break
                 p = pred[ci]
                 code = codes[ci]
-                if kinds[ci] != 'obs':
-                    # a new call: close the observation bookkeeping of the previous one
+                isobs = kinds[ci] == 'obs'
+                if not isobs:
                     res['ncalls'] += 1
                     res['by_kind'][kinds[ci]] = res['by_kind'].get(kinds[ci], 0) + 1
-                    if rk == 0:
-                        res['cover'].add((sig_before, code))
                     if irc == 0: res['nacc'] += 1
                     else: res['nrej'] += 1
                     res['by_rc'][irc] = res['by_rc'].get(irc, 0) + 1
+                    cand = (ci, code, irc, sig_before, last_group)
+                    last_group = None
+                else:
+                    res['nobs'] += 1
+                if rk == 0:
+                    res['cover'].add((sig_before, code))
                 if irc != p[0]:
-                    res['mism'].append(dict(hist=tag, call=ci, code=code, kind=kinds[ci], impl=irc, model=p[0], spec=p[1], rank=rk, line=ln,
-                                            sig=sig_before))
-                if irc != p[1] and kinds[ci] != 'obs':
-                    res['spec'].append(dict(hist=tag, call=ci, code=code, impl=irc, spec=p[1], model=p[0], rank=rk, line=ln, sig=sig_before,
-                                            safe=bool(int(sig_before.split(':')[0]) & 131072) if sig_before[0] != '-' else False))
-                if kinds[ci] == 'obs':
-                    cur_obs.append('%s %s %s' % (op, rcs, rest))
+                    res['mism'].append(dict(desc=desc, call=ci, code=code, kind=kinds[ci], impl=irc, model=p[0], spec=p[1], rank=rk, sig=sig_before))
+                if irc != p[1]:
+                    res['spec'].append(dict(desc=desc, call=ci, code=code, impl=irc, spec=p[1], model=p[0], rank=rk, sig=sig_before))
+                if isobs:
+                    cur.append('%s %s %s' % (op, rcs, rest))
                     if (hi, ci) in extra:
                         a, b = extra[(hi, ci)]
                         ea = lg.get(a); eb = lg.get(b) if b else None
-                        nreq = ea[2].strip() if ea else '?'
-                        if ea is not None and ea[1] == '0' and p is not None and nreq != str(p[3]):
-                            res['aux_mism'].append(dict(hist=tag, call=ci, impl_nreqs=nreq, model_nreqs=p[3], rank=rk))
-                        sigstr = '\n'.join(cur_obs) + '\nNREQ ' + (' '.join(ea[1:]) if ea else '?') + '\nSNAP ' + (' '.join(eb[1:]) if eb else '-')
-                        # mode oracle on the implementation alone
-                        m4 = [x.split(' ')[1] for x in cur_obs[:4]]
-                        if m4 not in (['-39'] * 4, ['-49', '-202', '0', '-202'], ['-203', '-49', '-203', '0'], ['-33'] * 4):
-                            res['modefail'].append(dict(hist=tag, call=ci, obs=m4, rank=rk))
-                        if pending is not None and prev_obs is not None:
-                            pci, pcode, pirc, psig = pending
-                            if pirc != 0 and pcode not in (CLOSE, ABORT) and prev_obs != sigstr:
-                                res['effect'].append(dict(hist=tag, call=pci, code=pcode, impl=pirc, rank=rk, sig=psig,
-                                                          before=prev_obs[-400:], after=sigstr[-400:]))
-                        prev_obs = sigstr; cur_obs = []; pending = None
-                else:
-                    pending = (ci, code, irc, sig_before) if prev_obs is not None else None
-                    if prev_obs is None:
-                        pending = None
-                    # a call without its own obs group keeps the previous reference only if it is followed by one
-                    if ci + 1 < len(kinds) and kinds[ci + 1] != 'obs':
-                        prev_obs = None
-                if p is not None:
-                    sig_before = p[2]
-    res['script'] = None
+                        if ea is not None and ea[1] == '0' and ea[2].strip() != str(p[3]):
+                            res['aux_mism'].append(dict(desc=desc, call=ci, impl_nreqs=ea[2].strip(), model_nreqs=p[3], rank=rk))
+                        sigstr = '\n'.join(cur) + '\nNREQ ' + (' '.join(ea[1:]) if ea else '?') + '\nSNAP ' + (' '.join(eb[1:]) if eb else '-')
+                        m4 = [x.split(' ')[1] for x in cur[:4]]
+                        if m4 not in LEGAL_MODE_SIGS:
+                            res['modefail'].append(dict(desc=desc, call=ci, obs=m4, rank=rk))
+                        if cand is not None and cand[4] is not None and cand[2] != 0 and cand[1] not in (CLOSE, ABORT) and cand[4] != sigstr:
+                            res['effect'].append(dict(desc=desc, call=cand[0], code=cand[1], impl=cand[2], rank=rk, sig=cand[3],
+                                                      before=cand[4][-600:], after=sigstr[-600:]))
+                        last_group = sigstr; cur = []; cand = None
+                sig_before = p[2]
     if not os.environ.get('C14_KEEP'):
         shutil.rmtree(d, ignore_errors=True)
     res['cover'] = list(res['cover'])
+    for k in ('mism', 'spec', 'effect', 'modefail', 'aux_mism'):
+        res['n_' + k] = len(res[k])
+        if k != 'spec':
+            res[k] = res[k][:40]
+    # keep the specification deviations compact: one representative (shortest) per key and state, plus counts
+    comp = {}
+    for f in res['spec']:
+        kk = (spec_key(f), f['sig'])
+        if kk not in comp or f['call'] < comp[kk][0]['call']:
+            comp[kk] = (f, comp[kk][1] + 1 if kk in comp else 1)
+        else:
+            comp[kk] = (comp[kk][0], comp[kk][1] + 1)
+    res['spec'] = [dict(f, count=n) for f, n in comp.values()]
     return res
 
 
-def first_lines_for(L, prelude, ln):
-    """the part of the script needed to replay line ln: header + prelude + the history containing ln, cut after ln"""
-    start = ln
-    while start > prelude and not L[start - 1].startswith('# '):
-        start -= 1
-    return '\n'.join(L[:prelude] + L[start - 1:ln]) + '\n'
-
-
-def history_script(h, model, np_=1, upto=None):
-    """stand-alone script of one history (for replay files)"""
-    rc, mout = C.sh([model], inp=(' '.join(map(str, h.codes)) + '\n').encode(), timeout=60)
-    pred = parse_model(mout.strip().split('\n')[0])
-    L = ['nprocs %d' % np_, 'env PNETCDF_SAFE_MODE=0',
-         '* create 1 1 1', '* def_dim 1 %s 2' % hx('x'), '* def_var 1 %s 4 1 0' % hx('v'), '* close 1',
-         '* create 2 1 1', '* def_dim 2 %s -1' % hx('t'), '* def_var 2 %s 4 1 0' % hx('r'), '* close 2']
-    r = Render()
+def history_script(desc, model, upto=None):
+    """stand-alone script of one history, cut after call `upto` and its re-probe (for replay files)"""
+    h = build(desc)
+    preds, err = model_predict(model, [h])
+    L = ['nprocs %d' % h.np] + PRELUDE
+    where, extra = {}, {}
+    L.append('# ' + h.tag)
+    render_hist(h, preds[0], L, where, extra, 0, upto=upto)
+    if not L[-1].split()[1:2] in (['close'], ['abort']):
+        L.append('* close 0')
     ann = {}
-    for ci, c in enumerate(h.codes):
-        if h.kinds[ci] == 'obs' and upto is not None and ci > upto + len(OBS):
-            break
-        ls, k = r.lines(c, pred[ci][0] if pred[ci] else -1)
-        for j, l in enumerate(ls):
-            L.append(l)
-            if j == k:
-                ann[len(L)] = dict(call=NAMES.get(c, str(c)), model_rc=pred[ci][0], spec_rc=pred[ci][1])
-        if upto is not None and ci >= upto + len(OBS):
-            break
+    for ln, (_, ci) in where.items():
+        if h.kinds[ci] != 'obs':
+            ann[ln] = dict(call=NAMES.get(h.codes[ci], str(h.codes[ci])), model_rc=preds[0][ci][0], spec_rc=preds[0][ci][1])
     return '\n'.join(L) + '\n', ann
 
 
@@ -558,107 +555,100 @@ def run(ctx):
     # ---- histories
     starts = [(s, r) for s in ('created', 'rw', 'ro') for r in (1, 0)]
     depth = 4 if thorough else 3
-    rng = ctx.rng
-    closed_pool = [c for c in ALL_CODES if c >= 10]
-    def closed_sample(i):
-        return [closed_pool[(i * 5 + j * 11) % len(closed_pool)] for j in range(3)]
-    fams = []
-    fams.append(('enum', list(enum_histories(depth, starts, 0, 'enum', closed_sample)), 1))
-    fams.append(('safe', list(enum_histories(depth - 1 if thorough else 2, starts, 1, 'safe', closed_sample)), 1))
-    fams.append(('cov', list(coverage_histories(reach)), 1))
-    two = list(enum_histories(2, starts, 0, 'np2', closed_sample))
+    fams = [('enum', list(enum_descs(depth, starts, 0, 'enum')), 1),
+            ('safe', list(enum_descs(3 if thorough else 2, starts, 1, 'safe')), 1),
+            ('cov', list(cov_descs(reach)), 1)]
+    two = list(enum_descs(2, starts, 0, 'np2', 2))
     if not thorough:
-        two = [h for i, h in enumerate(two) if i % 7 == (ctx.seed % 7)]
-    for h in two:
-        h.np = 2
+        two = [x for i, x in enumerate(two) if i % 7 == (ctx.seed % 7)]
     fams.append(('np2', two, 2))
     batches = []
-    bi = 0
-    for fam, hs, np_ in fams:
-        per = 60 if fam != 'cov' else 400
-        if np_ == 2:
-            per = 40
-        for i in range(0, len(hs), per):
-            batches.append((bi, [(h.tag, h.fam, np_, h.codes, h.kinds) for h in hs[i:i + per]], impl, model, wd, True))
-            bi += 1
-    allh = {h.tag: h for fam, hs, _ in fams for h in hs}
+    for fam, ds, np_ in fams:
+        per = 400 if fam == 'cov' else (40 if np_ == 2 else 60)
+        for i in range(0, len(ds), per):
+            batches.append((len(batches), ds[i:i + per], impl, model, wd))
     ctx.cov['rule'] = ('histories = start (created | opened rw | opened ro, with/without record variable; schema set-up spliced in) + every '
                        'sequence of <= %d letters of the %d-letter alphabet of mode-changing / core-changing calls (close and abort terminal) + '
                        'all %d probes (rotated order) + other-handle create/open + close + calls on the closed id; after every call the mode '
                        're-probe, inq dump, inq_nreqs and file snapshot; family cov = witness path of every proved-reachable core x every call; '
                        'family safe = PNETCDF_SAFE_MODE=1; family np2 = 2 ranks. A case = one history; non-trivial = it contains a rejected call '
                        '(all do)') % (depth, len(ALPHABET), len(PROBES))
-    tot = dict(ncalls=0, nrej=0, nacc=0, nh=0, lines=0)
+    tot = dict(ncalls=0, nrej=0, nacc=0, nh=0, lines=0, nobs=0)
+    nmis = dict(mism=0, spec=0, effect=0, modefail=0, aux_mism=0)
     mism, spec, effect, modefail, aux_mism, crashes = [], [], [], [], [], []
     cover = set()
     by_rc, by_kind, fam_count = {}, {}, {}
     t0 = time.time()
     with cf.ProcessPoolExecutor(max_workers=8) as ex:
         for r in ex.map(run_batch, batches, chunksize=1):
-            tot['ncalls'] += r['ncalls']; tot['nrej'] += r['nrej']; tot['nacc'] += r['nacc']; tot['nh'] += r['nh']
-            tot['lines'] += r['script_lines']
-            mism += r['mism'][:50]; spec += r['spec']; effect += r['effect'][:50]; modefail += r['modefail'][:50]
-            aux_mism += r['aux_mism'][:50]
+            for k in tot:
+                tot[k] += r.get({'lines': 'script_lines'}.get(k, k), 0)
+            for k in nmis:
+                nmis[k] += r.get('n_' + k, 0)
+            mism += r['mism']; spec += r['spec']; effect += r['effect']; modefail += r['modefail']; aux_mism += r['aux_mism']
             if r['crash']:
                 crashes.append(r['crash'])
             cover.update(tuple(x) for x in r['cover'])
             for k, v in r['by_rc'].items(): by_rc[k] = by_rc.get(k, 0) + v
             for k, v in r['by_kind'].items(): by_kind[k] = by_kind.get(k, 0) + v
-    for fam, hs, _ in fams:
-        fam_count[fam] = len(hs)
-        for h in hs:
-            ctx.count(h.tag + ' ' + ' '.join(map(str, h.codes[:400])), nontrivial=True)
+    for fam, ds, _ in fams:
+        fam_count[fam] = len(ds)
+        for x in ds:
+            ctx.count(desc_tag(x), nontrivial=True)
+    ctx.cov['samples'] = [history_script(fams[0][1][len(fams[0][1]) // 3], model)[0][:1500]]
     # ---- coverage of the proved enumeration
     want = {(sig, c) for sig, _ in reach for c in ALL_CODES}
     missing = sorted(want - cover)
-    ctx.cov['distribution'] = dict(histories=fam_count, calls_compared=tot['ncalls'], rejected=tot['nrej'], accepted=tot['nacc'],
+    ctx.cov['distribution'] = dict(histories=fam_count, calls_compared=tot['ncalls'], reprobe_calls_compared=tot['nobs'],
+                                   rejected=tot['nrej'], accepted=tot['nacc'],
                                    script_lines=tot['lines'], by_return_code={str(k): v for k, v in sorted(by_rc.items())},
                                    by_kind=by_kind, depth=depth, reachable_cores=len(reach), calls=len(ALL_CODES),
                                    state_call_pairs_proved=len(want), state_call_pairs_exercised=len(want & cover),
-                                   state_call_pairs_beyond_enumeration=len(cover - want), tie_wall_s=round(time.time() - t0, 1))
+                                   state_call_pairs_beyond_enumeration=len(cover - want), tie_wall_s=round(time.time() - t0, 1),
+                                   disagreements=nmis)
     # ---- verdicts
     # 1. property oracle on the implementation: specification return code, no effect of rejected calls, legal mode signature
     groups = {}
     for f in spec:
         groups.setdefault(spec_key(f), []).append(f)
     for key, fs in sorted(groups.items()):
-        f = min(fs, key=lambda x: (x['call'], len(x['hist'])))
-        h = allh[f['hist']]
-        script, ann = history_script(h, model, np_=h.np, upto=f['call'])
-        states = sorted({(x['sig'], x['impl'], x['spec']) for x in fs})[:12]
+        f = min(fs, key=lambda x: (x['call'], len(desc_tag(x['desc']))))
+        script, ann = history_script(f['desc'], model, upto=f['call'])
+        states = sorted({(x['sig'], x['impl'], x['spec']) for x in fs})[:16]
         ctx.violation('%s returns %d where the documented precedence gives %d (%d occurrences; states dflag:nflags:bits, impl, spec: %s)'
-                      % (NAMES.get(f['code']), f['impl'], f['spec'], len(fs), states),
-                      dict(script=script, annotated=ann, history=f['hist'], call_index=f['call'], np=h.np, relation='oracle_spec_rc'), key=key)
+                      % (NAMES.get(f['code']), f['impl'], f['spec'], sum(x.get('count', 1) for x in fs), states),
+                      dict(script=script, annotated=ann, history=desc_tag(f['desc']), call_index=f['call'], relation='oracle_spec_rc'), key=key)
     groups = {}
     for f in effect:
         groups.setdefault('rejected-has-effect:%s' % NAMES.get(f['code'], str(f['code'])).split('(')[0], []).append(f)
     for key, fs in sorted(groups.items()):
-        f = min(fs, key=lambda x: (x['call'], len(x['hist'])))
-        h = allh[f['hist']]
-        script, ann = history_script(h, model, np_=h.np, upto=f['call'])
+        f = min(fs, key=lambda x: (x['call'], len(desc_tag(x['desc']))))
+        script, ann = history_script(f['desc'], model, upto=f['call'])
         ctx.violation('%s was rejected (%d) but the observations before and after differ' % (NAMES.get(f['code']), f['impl']),
-                      dict(script=script, annotated=ann, history=f['hist'], call_index=f['call'], before=f['before'], after=f['after'],
-                           np=h.np, relation='oracle_no_effect'), key=key)
+                      dict(script=script, annotated=ann, history=desc_tag(f['desc']), call_index=f['call'], before=f['before'], after=f['after'],
+                           relation='oracle_no_effect'), key=key)
     if modefail:
         f = modefail[0]
-        h = allh[f['hist']]
-        script, ann = history_script(h, model, np_=h.np, upto=f['call'])
+        script, ann = history_script(f['desc'], model, upto=f['call'])
         ctx.violation('mode re-probe shows no legal mode (dispatcher and driver disagree?): %s' % f['obs'],
-                      dict(script=script, annotated=ann, history=f['hist'], call_index=f['call'], np=h.np, relation='oracle_mode_unique'),
+                      dict(script=script, annotated=ann, history=desc_tag(f['desc']), call_index=f['call'], relation='oracle_mode_unique'),
                       key='mode:illegal-signature')
     for c in crashes:
+        script = ''
+        if c.get('desc') is not None and c['what'] != 'model driver failed':
+            script = history_script(c['desc'], model, upto=c.get('call'))[0]
         ctx.violation('%s of the implementation in %s' % (c['what'], NAMES.get(c.get('code'), c.get('script_line'))),
-                      dict(script=c.get('script', ''), detail=c.get('detail', ''), history=c.get('hist'), relation='oracle_survives'),
+                      dict(script=script, detail=c.get('detail', ''), history=desc_tag(c['desc']) if c.get('desc') else None,
+                           relation='oracle_survives'),
                       key='%s:%s' % (c['what'], NAMES.get(c.get('code'), 'unknown').split('(')[0]))
     oracle_failed = bool(spec or effect or modefail or crashes)
     # 2. model vs implementation where the oracle passes, proof obligations, coverage
-    mism_pure = [m for m in mism if m['impl'] == m['spec'] or m['kind'] == 'obs']
+    mism_pure = [m for m in mism if m['impl'] == m['spec']]
     if mism_pure or aux_mism:
-        m = (mism_pure or [None])[0]
-        rep = dict(relation='corr_C14_rc', mismatches=mism_pure[:10], aux=aux_mism[:10])
-        if m:
-            h = allh[m['hist']]
-            rep['script'], rep['annotated'] = history_script(h, model, np_=h.np, upto=m['call'])
+        rep = dict(relation='corr_C14_rc', mismatches=[dict(m, desc=desc_tag(m['desc'])) for m in mism_pure[:10]],
+                   aux=[dict(m, desc=desc_tag(m['desc'])) for m in aux_mism[:10]])
+        m = (mism_pure or aux_mism)[0]
+        rep['script'], rep['annotated'] = history_script(m['desc'], model, upto=m['call'])
         ctx.violation('corr_C14_rc: model and implementation disagree on a return code / request count while the specification oracle passes '
                       '(%d + %d cases)' % (len(mism_pure), len(aux_mism)), rep, no_input=not oracle_failed)
     if not proof_ok:
